@@ -1049,11 +1049,16 @@ def p_codec(o):
     o.replay_base = {"sub": "codec"}
     rt_pass(o, exe, "codec", ["--cases", cases, "--max-secs", sizes(o.tier, 60, 420)], timeout=sizes(o.tier, 300, 1500))
     nodebug_pass(o, build_rt(profile="nodebug"), "codec", ["--cases", sizes(o.tier, 30_000, 1_000_000), "--max-secs", sizes(o.tier, 30, 120), "--first", 7_000_000], timeout=sizes(o.tier, 300, 900))
-    if o.prop == "C06" or o.tier == "thorough":
+    if o.prop == "C06" or (o.prop == "C07" and o.tier == "thorough"):
         # the layout is little endian on every platform: the same monitors, interpreted by Miri for a big-endian target
         miri_pass(o, "codec", ["--cases", 100_000, "--light", 1], shards=sizes(o.tier, 8, NCPU), secs=sizes(o.tier, 20, 150), key="%s/miri-ub" % o.prop,
                   target="s390x-unknown-linux-gnu", prefix="miri_be_")
-        o.need(["cases_run", "def_array", "def_variant"], "miri_be_")
+        o.need(["cases_run", "def_array"], "miri_be_")
+    if o.prop == "C08":
+        # the JSON form is target independent: the same monitor interpreted for a 32-bit target (usize / isize are 32 bits wide there)
+        miri_pass(o, "codec", ["--cases", 100_000, "--light", 1], shards=sizes(o.tier, 8, NCPU), secs=sizes(o.tier, 20, 150), key="C08/miri-ub",
+                  target="i686-unknown-linux-gnu", prefix="miri_32_")
+        o.need(["json_light_cases"], "miri_32_")
     o.rule = ("RegGen registries (seeded; well-formed and arbitrary modes; every definition kind; ids from all four compact size classes; "
               "hostile unicode strings; vector lengths across 63/64 and, thorough, 16383/16384). A case is non-trivial when the registry has >=1 entry; "
               "distinct = distinct reference encodings (content hash).")
@@ -1073,6 +1078,9 @@ def p_retain(o):
             crash_is_violation=("C10/crash", "retain crashed the process (stack overflow / abort) on a well-formed registry"))
     nodebug_pass(o, build_rt(profile="nodebug"), "retain", ["--cases", sizes(o.tier, 100_000, 3_000_000), "--max-secs", sizes(o.tier, 30, 120)], timeout=sizes(o.tier, 300, 900),
                  crash=("C10/crash", "retain crashed the process (stack overflow / abort) on a well-formed registry"))
+    # the same monitor interpreted by Miri for a 32-bit target: registries with more entries than a machine word has bits
+    miri_pass(o, "retain", ["--cases", 100_000, "--light", 1], shards=sizes(o.tier, 8, NCPU), secs=sizes(o.tier, 25, 150), key="C10/miri-ub", target="i686-unknown-linux-gnu", prefix="miri_32_")
+    o.need(["cases_run"], "miri_32_")
     o.rule = ("(well-formed RegGen registry, filter) pairs; filters: none, all, single id, last, pair, random subsets of several densities, only leaves, only roots. "
               "Non-trivial: filter accepts something, reachability adds ids beyond the accepted ones, and something is dropped. distinct = distinct (registry encoding, accepted set).")
     o.need(["reachable_only_through_type_param", "self_reference_retained", "second_retain_checked", "filter_none", "filter_all", "filter_single", "filter_random-subset", "filter_leaves", "filter_roots"]
@@ -1240,7 +1248,8 @@ def setup():
         return 1
     # Miri sysroot for the big-endian pass of C06 (built on first use otherwise)
     try:
-        subprocess.run(["cargo", "+nightly", "miri", "setup", "--target", "s390x-unknown-linux-gnu"], cwd=HARNESS, env=base_env(), stdout=subprocess.PIPE, stderr=subprocess.PIPE, timeout=900)
+        for tgt in ("s390x-unknown-linux-gnu", "i686-unknown-linux-gnu"):
+            subprocess.run(["cargo", "+nightly", "miri", "setup", "--target", tgt], cwd=HARNESS, env=base_env(), stdout=subprocess.PIPE, stderr=subprocess.PIPE, timeout=900)
     except Exception as e:
         log("miri setup for s390x skipped: %s" % e)
     return 0
